@@ -11,7 +11,9 @@ CLASSES = collections.OrderedDict()    # short name -> ClassInfo
 CONTRACTS = collections.OrderedDict()  # 'Class.method' or 'func' -> Contract
 PREDICATES = {}                        # name -> (params, ast expr)
 PROPERTY_FUNCS = collections.OrderedDict()   # property id -> [contract keys]
-ASSUMPTIONS = []                       # free-text assumptions recorded by contract files
+ASSUMPTIONS = []
+GLOBAL_OBJECTS = {}      # global name -> (class, {field: python value}) : module-level constant objects
+                       # free-text assumptions recorded by contract files
 
 
 class ClassInfo(object):
@@ -134,7 +136,7 @@ def _parse_params(c, params):
 def contract(key, module=None, qual=None, params=None, returns=None, requires=(), ensures=(),
              raises=None, modifies=(), loops=None, yields=False, pure=False, props=(),
              kind='repo', model=None, defaults=None, free_requires=(), notes='',
-             locals=None, verify=True, lemmas=()):
+             locals=None, verify=True, lemmas=(), reads=()):
     c = Contract(key)
     c.kind = kind
     c.module = module
@@ -157,6 +159,7 @@ def contract(key, module=None, qual=None, params=None, returns=None, requires=()
     c.notes = notes
     c.verify = verify
     c.lemmas = list(lemmas)
+    c.reads = list(reads)
     c.locals = {k: T.parse_type(v) for k, v in (locals or {}).items()}
     CONTRACTS[key] = c
     for p in props:
@@ -220,3 +223,8 @@ def _builtin_exceptions():
 
 
 _builtin_exceptions()
+
+
+def global_object(name, cls, **fields):
+    """A module-level constant object (e.g. slimta.smtp.reply.bad_sequence) referenced by name."""
+    GLOBAL_OBJECTS[name] = (cls, fields)
